@@ -376,8 +376,13 @@ def gen_op(rng: random.Random, case: F.Case, tracks, kinds: list[str], always_re
                 tt = g.nodes[cs[0]]["time"]
                 px = sorted(tt * frame + o for o in range(frame) if int(seg[tt * frame + o]) in cs)
                 if px:
+                    # the track asked for: one that divided upstream ELSEWHERE (the refusal must not
+                    # depend on the daughters that the stroke removes), else any track
+                    other = [g.nodes[q].get("track_id") for q in nodes
+                             if q != p_ and g.out_degree(q) == 2 and g.nodes[q]["time"] < tt]
+                    tid_ = rng.choice(other) if other and rng.random() < 0.8 else (rng.choice(tids) if tids else 1)
                     return {"op": "paint", "value": fresh_node_id(rng, tracks), "pixels": px,
-                            "tid": g.nodes[p_].get("track_id", 1), "force": int(rng.random() < 0.3)}
+                            "tid": tid_, "force": int(rng.random() < 0.25)}
         if rng.random() < 0.06 and g.number_of_edges() and not case.spec.get("orphan_labels"):
             # erase EXACTLY the overlap of an edge's end points from the child (both survive): the
             # true IoU drops to 0 — while the feature is off the stored value goes stale
